@@ -435,3 +435,14 @@ def rule_builtin_clocks(ctx):
 
 
 RULES.append(("C18.i", "the built-in clocks answer truthfully (SystemClock: Synchronized / OutOfSync(now - deadline); AutoSystemClock delegates the deadline)", rule_builtin_clocks))
+
+
+def rule_time_cell(ctx):
+    from . import c15, inventory
+    c15.rule_a(ctx)
+    c15.rule_b(ctx)
+    c15.rule_time_cell_fields(ctx)
+    inventory.check_narrowing(ctx)
+
+
+RULES.append(("C18.j", "the times written and handed to the clock are the simulation time: unconverted components of the time cell, untorn reads (C15.a/b)", rule_time_cell))
